@@ -423,6 +423,17 @@ class C17(BridgeProp):
             if rng.random() < 0.5:
                 steps += [{"do": "start"}, {"do": "dgram", "p": rng.choice(ps), "d": rdev(rng), "cbraise": False}, {"do": "stop"}, {"do": "cycle"}]
             out.append({"ports": ps, "steps": steps})
+        # the user's callback stops the bridge ("found my device"): the bridge is stopped, later broadcasts reach nobody, restart works
+        for _ in range(ctx.pick(40, 600)):
+            np_ = rng.randrange(1, 4)
+            ps = PORTS[:np_]
+            steps = [{"do": "start"}]
+            if rng.random() < 0.5:
+                steps.append({"do": "dgram", "p": rng.choice(ps), "d": rdev(rng), "cbraise": False})
+            steps.append({"do": "dgram", "p": rng.choice(ps), "d": rdev(rng), "cbraise": rng.random() < 0.2, "cbstop": True})
+            steps.append({"do": "dgram", "p": rng.choice(ps), "d": rdev(rng), "cbraise": False})
+            steps += [{"do": "cycle"}, {"do": "start"}, {"do": "dgram", "p": rng.choice(ps), "d": rdev(rng), "cbraise": False}, {"do": "stop"}, {"do": "cycle"}]
+            out.append({"ports": ps, "steps": steps})
         # start() cancelled after k loop cycles (task cancellation, a timeout): stop() must still release what it had opened
         for nports in (1, 2, 3, 4):
             for k in range(0, nports + 2):
